@@ -436,6 +436,9 @@ func c07HelperScope() *drv.Scope {
 			if !okv(got[0].X, xl, xh) || !okv(got[0].Y, yl, yh) || got[0] != gots[0][0] {
 				c.Fail("quantise", "ScalePathDToPath64", "ScalePathDToPath64((%v,%v), 10^%d)=%v (Paths variant %v); exact products round to x in [%d,%d], y in [%d,%d]", v, w, p, got[0], gots[0][0], xl, xh, yl, yh)
 			}
+			if rect[0] != got[0] {
+				c.Fail("quantise-rect", "ScaleRectD", "ScaleRectD(left=%v top=%v, 10^%d) gives (%d,%d) but the same values as path coordinates quantise to %v: rectangle bounds must be quantised like path coordinates", v, w, p, rect[0].X, rect[0].Y, got[0])
+			}
 			if !okv(rect[0].X, xl, xh) || !okv(rect[0].Y, yl, yh) {
 				c.Fail("quantise-rect", "ScaleRectD", "ScaleRectD(left=%v top=%v, 10^%d) gives (%d,%d); path coordinates with the same values quantise to x in [%d,%d], y in [%d,%d]", v, w, p, rect[0].X, rect[0].Y, xl, xh, yl, yh)
 			}
